@@ -747,3 +747,41 @@ def subst(r, mapping):
     if d.is_zero():
         raise Undefined("denominator vanishes under substitution")
     return n / d
+
+
+def map_atoms(r, fn):
+    """Rebuild r with every atom a (top-down) replaced by fn(a) when that is not None; arguments of kept atoms are mapped
+    recursively and the rewrites of apply() are re-applied."""
+    def m_arg(x):
+        if isinstance(x, Rat):
+            return map_atoms(x, fn)
+        if isinstance(x, tuple):
+            return tuple(m_arg(y) for y in x)
+        return x
+
+    def m_atom(at):
+        rep = fn(at)
+        if rep is not None:
+            return map_atoms(rep, fn) if rep.key() != Rat.of_atom(at).key() else rep
+        if at.func.startswith("$") or not at.args:
+            return Rat.of_atom(at)
+        args = [m_arg(x) for x in at.args]
+        if at.func == "base":
+            return Rat.of_atom(atom("base", (args[0],)))
+        pos = [a for a in args if not (isinstance(a, tuple) and a and isinstance(a[0], str) and a[0].startswith("kw:"))]
+        kws = {a[0][3:]: a[1] for a in args if isinstance(a, tuple) and a and isinstance(a[0], str) and a[0].startswith("kw:")}
+        return apply(at.func, pos, kws)
+
+    def m_poly(p):
+        total = Rat.const(0)
+        for mono, c in p.items():
+            term = Rat.const(c)
+            for a, e in mono:
+                term = term * m_atom(_ATOMS[a]).pow(e)
+            total = total + term
+        return total
+    n = m_poly(r.num)
+    d = m_poly(r.den)
+    if d.is_zero():
+        raise Undefined("denominator vanishes under substitution")
+    return n / d
